@@ -273,6 +273,30 @@ def _vecs_match(vecs, Pq, Vlab, n):
     return False
 
 
+def _zero_test(cond):
+    """(expr, true_iff_zero) when the condition is a test of expr == 0 in one of its spellings:
+    a == b, a != b, 0 < x / x > 0, x <= 0 / 0 >= x for a syntactically non-negative x."""
+    from .common_nc import cond_canon
+    from qstatic.scenario import is_nonneg
+    c = cond_canon(cond)
+    if c is None:
+        return None
+    op, lo, hi = c
+    try:
+        lo, hi = Poly.lift(lo), Poly.lift(hi)
+    except TypeError:
+        return None
+    if op == "eq":
+        return lo - hi, True
+    if op == "ne":
+        return lo - hi, False
+    if op == "lt" and lo.is_zero() and is_nonneg(hi):
+        return hi, False
+    if op == "le" and hi.is_zero() and is_nonneg(lo):
+        return lo, True
+    return None
+
+
 def _check_householder(ctx, prog, RULE="C08.D5.reflector"):
     """householder_vector(a, v) for a column vector a and real unit target v:
          alpha = ||a||_F;  alpha == 0  ->  (0, 1)   [the ONLY path that may return the zero vector: H = I]
@@ -296,17 +320,13 @@ def _check_householder(ctx, prog, RULE="C08.D5.reflector"):
                 why = getattr(cond, "why", None)
                 if isinstance(why, tuple) and why and why[0] in ("any", "all"):
                     return False                      # np.any(np.imag(v) != 0): v is real
-                parts = cond_parts(cond)
-                if parts is None:
+                zt = _zero_test(cond)
+                if zt is None:
                     return None
-                op, lhs, rhs = parts
-                log.append((op, lhs, rhs))
-                n_eq = sum(1 for o, _, _ in log if o in ("eq", "ne"))
-                if op == "eq":
-                    return alpha_zero if n_eq == 1 else r_zero
-                if op == "ne":
-                    return (not alpha_zero) if n_eq == 1 else (not r_zero)
-                return None
+                expr, true_iff_zero = zt
+                log.append(expr)
+                is_zero = alpha_zero if len(log) == 1 else r_zero      # 1st zero test: alpha = ||a||;  2nd: r = |romega|
+                return is_zero if true_iff_zero else (not is_zero)
             it, d = new_interp(ctx, chooser=chooser)
             a = sym_quat("a", (k,))
             v = mk((k,), "real")
@@ -321,6 +341,19 @@ def _check_householder(ctx, prog, RULE="C08.D5.reflector"):
                 continue
             u, zeta = out
             alpha = sum((q.norm2() for q in a), Poly.const(0)).sqrt()
+            # the two branch conditions must be exactly  alpha == 0  and  |romega| == 0  (in any spelling: r, r**2, > 0 ...): a test
+            # of one component of romega sends a non-zero romega with that component zero down the zeta = 1 branch
+            n2 = a[0].norm2()
+            want = [("alpha = ||a||_F", alpha, sum((q.norm2() for q in a), Poly.const(0))), ("r = |romega|", n2.sqrt(), n2)]
+            for (nm_, root, sq), expr in zip(want, log):
+                okz = any(expr.same(root * c) or expr.same(sq * c) for c in (1, -1))
+                if not okz:
+                    sa = expr.as_single_atom()
+                    okz = sa is not None and sa[2] > 0 and Poly.atom(sa[1]).same(root)
+                ctx.ob(RULE, f"{tag}: zero test of {nm_}", okz,
+                       f"the branch is not decided by {nm_} == 0 but by {short(expr)} == 0 (one component instead of the modulus: "
+                       f"a non-zero value with that component zero takes the degenerate branch)", where=f_hv.where,
+                       construct=f"householder_vector: zero test of {nm_.split(' ')[0]} replaced", loc=f_hv.loc())
             is_zero_u = all(SQ.lift(x).is_zero() for x in wrap(u).reshape(-1))
             if alpha_zero:
                 ok = is_zero_u and SQ.lift(zeta).same(SQ(1))
